@@ -55,8 +55,10 @@ def read_lmpdat_strict(text, style="full"):
         if not matched:
             if len(toks) == 4 and toks[2:] in (["xlo", "xhi"], ["ylo", "yhi"], ["zlo", "zhi"]):
                 out["box"][toks[2][0]] = (float(toks[0]), float(toks[1]))
+                out.setdefault("box_tokens", []).extend(toks[:2])
             elif len(toks) == 6 and toks[3:] == ["xy", "xz", "yz"]:
                 out["tilt"] = (float(toks[0]), float(toks[1]), float(toks[2]))
+                out.setdefault("box_tokens", []).extend(toks[:3])
             else:
                 raise FormatError("unrecognised header line %r" % lines[i])
         i += 1
@@ -115,7 +117,7 @@ def read_lmpdat_strict(text, style="full"):
             mol, typ, q, x, y, z = 1, int(toks[1]), 0.0, float(toks[2]), float(toks[3]), float(toks[4])
         if not 1 <= typ <= t.get("atom types", 0):
             raise FormatError("Atoms line %r: type %d outside 1..%d" % (raw, typ, t.get("atom types", 0)))
-        atoms.append({"mol": mol, "type": typ, "q": q, "pos": (x, y, z)})
+        atoms.append({"mol": mol, "type": typ, "q": q, "pos": (x, y, z), "tok": toks})
     out["atoms"] = atoms
     out["terms"] = {}
     for sec, key, ar in (("Bonds", "bond types", 2), ("Angles", "angle types", 3), ("Dihedrals", "dihedral types", 4), ("Impropers", "improper types", 4)):
@@ -132,6 +134,7 @@ def read_lmpdat_strict(text, style="full"):
             rows.append((typ, ids))
         out["terms"][sec] = rows
     out["masses"] = [(float(toks[1]), comment) for toks, comment, raw in s.get("Masses", [])]
+    out["mass_tokens"] = [toks[1] for toks, comment, raw in s.get("Masses", [])]
     out["coeffs"] = {sec: [(toks[1:], comment) for toks, comment, raw in s[sec]] for sec in s if sec.endswith("Coeffs")}
     return out
 
@@ -274,3 +277,16 @@ def write_cml(atoms, bonds, id_scheme, attr_order=None, extra_ws=False, declarat
         out.append(" <dataMap />")
     out.append("</molecule>")
     return "\n".join(out) + "\n"
+
+
+def decimals(tok):
+    """Number of digits printed after the decimal point of a numeric token (printed precision); 15 for exponent notation."""
+    t = re.sub(r"\(\d+\)", "", str(tok))
+    if "e" in t.lower():
+        return 15
+    return len(t.split(".")[1]) if "." in t else 0
+
+
+def half_unit(d):
+    """Largest difference between a value and its rendering with d decimals (plus one part in a million of slack)."""
+    return 0.5000005 * 10.0 ** (-d) + 1e-12
